@@ -605,6 +605,39 @@ fn handle(line: &str) -> String {
                 Err(e) => format!("err {:?}", e).replace(' ', "_"),
             }
         }
+        "build_digests" => {
+            // <size,size,...>: build (no compression), then recompute every recorded digest from the written bytes
+            use sha2::Digest;
+            let sizes: Vec<usize> = if p[1] == "-" { vec![] } else { p[1].split(',').filter_map(|x| x.parse().ok()).collect() };
+            let dir = std::env::temp_dir().join(format!("rpm-native-replay-dg-{}", std::process::id()));
+            let _ = std::fs::create_dir_all(&dir);
+            let mut b = rpm::PackageBuilder::new("n", "1", "MIT", "noarch", "s").compression(rpm::CompressionType::None);
+            let content = |i: usize, n: usize| (0..n).map(|k| (17 * i + 31 * k + 1) as u8).collect::<Vec<u8>>();
+            for (i, n) in sizes.iter().enumerate() {
+                let f = dir.join(format!("f{}", i));
+                std::fs::write(&f, content(i, *n)).unwrap();
+                b = b.with_file(&f, rpm::FileOptions::new(format!("/d/f{}", i))).unwrap();
+            }
+            let pkg = b.build();
+            let _ = std::fs::remove_dir_all(&dir);
+            let pkg = match pkg { Ok(p) => p, Err(e) => return format!("build-err {:?}", e).replace(' ', "_") };
+            let hx = |d: &[u8]| d.iter().map(|x| format!("{:02x}", x)).collect::<String>();
+            let mut hb = Vec::new();
+            let mut all = Vec::new();
+            pkg.metadata.write(&mut all).unwrap();
+            let o = pkg.metadata.get_package_segment_offsets();
+            hb.extend_from_slice(&all[o.header as usize..]);
+            let mut bad: Vec<String> = Vec::new();
+            let sha = |d: &[u8]| hx(&sha2::Sha256::digest(d));
+            if pkg.metadata.signature.get_entry_data_as_string(rpm::IndexSignatureTag::RPMSIGTAG_SHA256).ok() != Some(sha(&hb).as_str()) { bad.push("header".into()); }
+            if pkg.metadata.header.get_entry_data_as_string_array(rpm::IndexTag::RPMTAG_PAYLOADDIGEST).ok().map(|v| v.to_vec()) != Some(vec![sha(&pkg.content)]) { bad.push("payload".into()); }
+            if pkg.metadata.header.get_entry_data_as_string_array(rpm::IndexTag::RPMTAG_PAYLOADDIGESTALT).ok().map(|v| v.to_vec()) != Some(vec![sha(&pkg.content)]) { bad.push("payloadalt".into()); }
+            if !sizes.is_empty() {
+                let want: Vec<String> = sizes.iter().enumerate().map(|(i, n)| sha(&content(i, *n))).collect();
+                if pkg.metadata.header.get_entry_data_as_string_array(rpm::IndexTag::RPMTAG_FILEDIGESTS).ok().map(|v| v.to_vec()) != Some(want) { bad.push("files".into()); }
+            }
+            if bad.is_empty() { "same".to_string() } else { format!("differs: {}", bad.join(",")) }
+        }
         "wsink" => {
             // <k> <fail_at> <intr_at> <package|metadata>: write a freshly built package into a scripted sink; every failure position is tried
             let k: usize = p[1].parse().unwrap_or(0);
